@@ -156,7 +156,8 @@ PROPS["C11"] = dict(
     overlays=[("palette", "vk_c11.rs"), ("parse", "vk_c11p.rs")],
     per_harness={r"c11_._new_palette_from_.*": dict(mem_gb=12, timeout=1500), r"c11_t_legacy_11_.*": dict(mem_gb=12, timeout=2400),
                  r"c11_._.*0011.*": dict(mem_gb=20, timeout=1500)},
-    bounds="new-format chunks of 2 entries at first index 0 / 254 with symbolic flags, RGBA and a 1-byte name; legacy chunks of "
+    bounds="new-format chunks of 2 entries at first index 0 / 254 with symbolic RGBA and a 1-byte name (flag words concrete: 0xfffe "
+           "unnamed, 1 and 0x8003 named); legacy chunks of "
            "2 packets (2 + 1 colours) at concrete skip pairs (0,3) (1,2) (2,1) (0,0) with symbolic components; all 6-bit values; "
            "2 indexed pixels against a 3-entry sparse palette; both chunk orders for precedence",
     outside="count byte 0 with all 256 entries present, more than 2 packets / entries, symbolic palette indices (hash-map keys are "
@@ -239,8 +240,8 @@ PROPS["C14"] = dict(
            "Interrupted results at fixed call numbers (masks per harness: before, between and after partial deliveries of 1, 2 or 4 "
            "bytes) for every primitive, and for a whole frame (layer + user data chunk) delivered 4 (quick) / 5 (thorough) bytes "
            "per call with every 3rd / 2nd call interrupted, compared field by field with the in-memory parse. Hard I/O errors: one "
-           "concrete kind at one concrete offset inside the bytes requested by each primitive and inside a chunk payload "
-           "(Chunk::read) -> IoError carrying that kind; the io::Error -> IoError conversion and source() for two kinds",
+           "concrete kind at one concrete offset inside the bytes requested by each primitive, inside a chunk payload (Chunk::read) and "
+           "inside the first of two declared chunks (Chunk::read_all) -> IoError carrying that kind, never a partial result; the io::Error -> IoError conversion and source() for two kinds",
     outside="std's read_exact is modelled for the harness readers (RetryReader/LimitReader::read_exact: retry on Interrupted, "
             "UnexpectedEof at end of input, the reader's error otherwise) without materialising the transient error value -- "
             "decoding std::io::Error's tagged pointer is a symbolic branch for CBMC and its Custom drop glue calls through an "
@@ -513,7 +514,9 @@ PROPS["C12"] = dict(
                  r"c12_q_tilemap_cel_declared_size": dict(ignore_checks=r"^__rust_dealloc\.|\.safety_check\.\d+$|\.precondition_instance\.\d+$|^kani::mem::cbmc::same_allocation\.unsupported_construct")},
     bounds="largest single Vec::with_capacity request (recorded by a stub) for: a raw image cel with declared width x height over all "
            "of u16 x u16 in a 24-byte chunk; an external-files chunk with entry count over all of u32; a tags chunk with count over all of u16; "
-           "every vec![0; n] request while a tileset chunk with symbolic tile count, tile size and compressed-length field is decoded",
+           "every vec![0; n] request while a tileset chunk with symbolic tile count, tile size and compressed-length field is decoded, and with "
+           "that field at concrete boundary values (u32::MAX; allowance + 1); a tilemap cel with declared width x height over all of u16 x u16; "
+           "Chunk::read_all with the chunk count over all of u32 and the byte budget over the range parse_frame can pass",
     outside="PARTIAL: the sum of live allocations (peak heap) is not decided; reservations inside the inflater path "
             "(AseReader::unzip: compressed cels, tilesets, tilemaps) cannot be observed because real inflate is not encodable; "
             "vec![0; n] / resize sites (chunk payload buffer, cel table growth by layer index, frame tables) are bounded by argument "
